@@ -291,6 +291,8 @@ class Unit:
             return text
 
         text = apply_subs(text, presubs, 'pre')
+        # real text kept by this extraction (after carving, before rules/subs): used by lib/coverage_map.py
+        self.kept_texts = getattr(self, 'kept_texts', []) + [(relpath, text)]
         enabled = dict(rules)
         for rn in rewrite.ORDER:
             if rn in enabled:
